@@ -291,6 +291,11 @@ impl<'a> YamlEmitter<'a> {
         for line in v.lines() {
             writeln!(self.writer)?;
             self.write_indent()?;
+            if self.level <= 0 {
+                // At the root of the document there is no indentation. Indent the content all the
+                // same: a line at column 0 could be read as a document marker.
+                self.writer.write_str(" ")?;
+            }
             // It's literal text, so don't escape special chars.
             self.writer.write_str(line)?;
         }
